@@ -15,6 +15,7 @@ import (
 	"github.com/oasisprotocol/oasis-core/go/common/crypto/hash"
 	"github.com/oasisprotocol/oasis-core/go/common/keyformat"
 	"github.com/oasisprotocol/oasis-core/go/common/logging"
+	"github.com/oasisprotocol/oasis-core/go/common/verifhook"
 	"github.com/oasisprotocol/oasis-core/go/storage/mkvs/db/api"
 	"github.com/oasisprotocol/oasis-core/go/storage/mkvs/node"
 	"github.com/oasisprotocol/oasis-core/go/storage/mkvs/writelog"
@@ -264,12 +265,14 @@ func (d *badgerNodeDB) cleanMultipartLocked(removeNodes bool) error {
 			return err
 		}
 	}
+	verifhook.Crash("badger.go:cleanMultipartLocked:begin")
 
 	// Flush batch first. If anything fails, having corrupt
 	// multipart info in d.meta shouldn't hurt us next run.
 	if err := batch.Flush(); err != nil {
 		return err
 	}
+	verifhook.Crash("badger.go:cleanMultipartLocked:after-batch-flush")
 
 	metaTx := d.db.NewTransactionAt(tsMetadata, true)
 	defer metaTx.Discard()
@@ -279,6 +282,7 @@ func (d *badgerNodeDB) cleanMultipartLocked(removeNodes bool) error {
 	if err := metaTx.CommitAt(tsMetadata, nil); err != nil {
 		return err
 	}
+	verifhook.Crash("badger.go:cleanMultipartLocked:end")
 
 	d.multipartVersion = multipartVersionNone
 	return nil
@@ -704,11 +708,13 @@ func (d *badgerNodeDB) Finalize(roots []node.Root) error { // nolint: gocyclo
 			return err
 		}
 	}
+	verifhook.Crash("badger.go:Finalize:begin")
 
 	// Commit batch.
 	if err := versionBatch.Flush(); err != nil {
 		return err
 	}
+	verifhook.Crash("badger.go:Finalize:after-batch-flush")
 
 	// Save roots metadata if changed.
 	if rootsChanged {
@@ -725,6 +731,7 @@ func (d *badgerNodeDB) Finalize(roots []node.Root) error { // nolint: gocyclo
 	if err := tx.CommitAt(tsMetadata, nil); err != nil {
 		return fmt.Errorf("mkvs/badger: failed to commit metadata: %w", err)
 	}
+	verifhook.Crash("badger.go:Finalize:after-meta-commit")
 
 	// Clean multipart metadata if there is any.
 	if d.multipartVersion != multipartVersionNone {
@@ -732,6 +739,7 @@ func (d *badgerNodeDB) Finalize(roots []node.Root) error { // nolint: gocyclo
 			return err
 		}
 	}
+	verifhook.Crash("badger.go:Finalize:end")
 	return nil
 }
 
@@ -832,11 +840,13 @@ func (d *badgerNodeDB) Prune(version uint64) error {
 			}
 		}
 	}
+	verifhook.Crash("badger.go:Prune:begin")
 
 	// Commit batch.
 	if err := batch.Flush(); err != nil {
 		return fmt.Errorf("mkvs/badger: failed to flush batch: %w", err)
 	}
+	verifhook.Crash("badger.go:Prune:after-batch-flush")
 
 	// Update metadata.
 	if err := d.meta.setEarliestVersion(tx, version+1); err != nil {
@@ -845,6 +855,7 @@ func (d *badgerNodeDB) Prune(version uint64) error {
 	if err := tx.CommitAt(tsMetadata, nil); err != nil {
 		return fmt.Errorf("mkvs/badger: failed to commit: %w", err)
 	}
+	verifhook.Crash("badger.go:Prune:end")
 
 	// Discard everything invalidated at or below given version.
 	d.db.SetDiscardTs(versionToTs(version + 1))
@@ -868,6 +879,7 @@ func (d *badgerNodeDB) StartMultipartInsert(version uint64) error {
 		// probably called e.g. as part of a further checkpoint restore.
 		return nil
 	}
+	verifhook.Crash("badger.go:StartMultipartInsert:begin")
 
 	tx := d.db.NewTransactionAt(tsMetadata, true)
 	defer tx.Discard()
@@ -877,6 +889,7 @@ func (d *badgerNodeDB) StartMultipartInsert(version uint64) error {
 	if err := tx.CommitAt(tsMetadata, nil); err != nil {
 		return err
 	}
+	verifhook.Crash("badger.go:StartMultipartInsert:end")
 
 	d.multipartVersion = version
 
@@ -1119,21 +1132,25 @@ func (ba *badgerBatch) Commit(root node.Root) error {
 			}
 		}
 	}
+	verifhook.Crash("badger.go:Commit:begin")
 
 	// Flush node updates.
 	if ba.multipartNodes != nil {
 		if err = ba.multipartNodes.Flush(); err != nil {
 			return fmt.Errorf("mkvs/badger: failed to flush node log batch: %w", err)
 		}
+		verifhook.Crash("badger.go:Commit:after-nodelog-flush")
 	}
 	if err = ba.bat.Flush(); err != nil {
 		return fmt.Errorf("mkvs/badger: failed to flush batch: %w", err)
 	}
+	verifhook.Crash("badger.go:Commit:after-batch-flush")
 
 	// Commit root metadata updates. This is done last, so in case we fail, we can still retry.
 	if err = tx.CommitAt(tsMetadata, nil); err != nil {
 		return err
 	}
+	verifhook.Crash("badger.go:Commit:end")
 
 	ba.writeLog = nil
 	ba.annotations = nil
